@@ -33,13 +33,18 @@ pub struct TreeProp {
 pub fn run_case_impl(c: &Case) -> Vec<Out> {
   let mut ctx = Ctx::default();
   let built: Vec<Result<rspack_sources::BoxSource, String>> = c.trees.iter().map(|t| catch(|| ctx.build(t))).collect();
-  c.script.iter().map(|(i, op)| match &built[*i] { Ok(s) => run_op_impl(s.as_ref(), op), Err(m) => Out::Panic(format!("build: {m}")) }).collect()
+  c.script.iter().map(|(i, op)| match (&built[*i], op) {
+    (Ok(s), Op::Eq(j)) => match &built[*j] { Ok(o) => match catch(|| s.as_ref() == o.as_ref()) { Ok(b) => Out::Num(b as u64), Err(m) => Out::Panic(m) }, Err(m) => Out::Panic(format!("build: {m}")) },
+    (Ok(s), op) => run_op_impl(s.as_ref(), op),
+    (Err(m), _) => Out::Panic(format!("build: {m}")) }).collect()
 }
 
 pub fn case_reqs(c: &Case) -> Vec<String> {
   let mut reqs = vec!["reset".to_string()];
   for (i, t) in c.trees.iter().enumerate() { reqs.push(format!("tree A{} {}", i, t.proto())); }
-  for (i, op) in &c.script { reqs.push(op_proto(&format!("A{i}"), op)); }
+  for (i, op) in &c.script {
+    if *op == Op::Hash { reqs.push(format!("feed A{i} {}", fx_table(&c.trees[*i]))); } else { reqs.push(op_proto(&format!("A{i}"), op)); }
+  }
   reqs
 }
 
@@ -103,11 +108,10 @@ pub fn shrink_tree(t: &T) -> Vec<T> {
         if rs[k].enforce != 1 { let mut x = rs.clone(); x[k].enforce = 1; v.push(T::Replace(i.clone(), x)); }
         if rs[k].end > rs[k].start { let mut x = rs.clone(); x[k].end -= 1; v.push(T::Replace(i.clone(), x)); }
       }
-      let base = crate::gen::src_of(i);
       for s in shrink_tree(i) {
         // keep replacement positions on char boundaries of the new inner text
         let ns = match catch(|| crate::gen::src_of(&s)) { Ok(x) => x, Err(_) => continue };
-        if ns.len() == base.len() || rs.iter().all(|r| (r.start as usize >= ns.len() || ns.is_char_boundary(r.start as usize)) && (r.end as usize >= ns.len() || ns.is_char_boundary(r.end as usize))) {
+        if rs.iter().all(|r| (r.start as usize >= ns.len() || ns.is_char_boundary(r.start as usize)) && (r.end as usize >= ns.len() || ns.is_char_boundary(r.end as usize))) {
           v.push(T::Replace(Box::new(s), rs.clone()));
         }
       }
@@ -247,7 +251,8 @@ pub fn case_of_reqs(reqs: &[String]) -> Result<Case, String> {
       verb => {
         let name = t.tok()?; let idx: usize = name.trim_start_matches('A').parse().map_err(|_| format!("bad tree name {name}"))?;
         let op = match verb {
-          "src" => Op::Src, "buffer" => Op::Buffer, "size" => Op::Size, "rope" => Op::Rope, "feed" => Op::Hash,
+          "src" => Op::Src, "buffer" => Op::Buffer, "size" => Op::Size, "rope" => Op::Rope, "feed" => Op::Hash, "clonecheck" => Op::CloneCheck,
+          "eq" => { let o = t.tok()?; Op::Eq(o.trim_start_matches('A').parse().map_err(|_| "bad eq".to_string())?) }
           "writer" => Op::Writer(t.num()? as usize),
           "stream" => { let c = t.boolean()?; let f = t.boolean()?; Op::Stream(c, f) }
           "map" => Op::Map(t.boolean()?),
@@ -258,4 +263,22 @@ pub fn case_of_reqs(reqs: &[String]) -> Result<Case, String> {
     }
   }
   Ok(Case { trees, script, note: "replayed".into() })
+}
+
+/// the memoised FxHasher value of every CachedSource node (computed with the real rustc-hash), as `n (id value)*`
+pub fn fx_table(t: &T) -> String {
+  fn go(t: &T, out: &mut Vec<(u32, u64)>) {
+    match t {
+      T::Cached(id, i) => {
+        use std::hash::Hasher;
+        if let Ok(v) = catch(|| { let s = Ctx::default().build(i); let mut h = rustc_hash::FxHasher::default(); s.dyn_hash(&mut h); h.finish() }) { if !out.iter().any(|e| e.0 == *id) { out.push((*id, v)); } }
+        go(i, out);
+      }
+      T::Concat(cs) => for c in cs { go(&c.1, out) },
+      T::Replace(i, _) => go(i, out),
+      _ => {}
+    }
+  }
+  let mut v = vec![]; go(t, &mut v);
+  let mut s = v.len().to_string(); for (i, x) in v { s.push_str(&format!(" {i} {x}")); } s
 }
